@@ -295,3 +295,5 @@ def run(ctx):
         ctx.guarded(r, NS.check_nan_spread, arch)
     r = ctx.rule("R2k", "intervals are built from two bounds only in Interval::new; has_nan looks at both bounds", 2)
     ctx.guarded(r, r_interval_wellformed)
+    # a reciprocal taken with a bound exactly at the pole builds reversed bounds, which Interval::new refuses (a panic)
+    ctx.include('C03', 'interval operations must not build bounds that Interval::new rejects', only=('R5r',))
